@@ -42,7 +42,7 @@ func init() {
 		Check:           c11Check,
 		DistinctClasses: []string{"completion-order", "op-kind"},
 		MinEvaluations:  func(tier string) int64 { return 20 },
-		RequiredCounts:  []string{"concurrent_ops", "cold_rounds", "op:schema-argmaps", "op:format-builtin", "rounds", "snapshots_compared", "yield_rounds", "op:validate", "op:validate-rules", "op:variables", "op:argmap", "op:format", "op:lookups"},
+		RequiredCounts:  []string{"concurrent_ops", "cold_rounds", "op:schema-argmaps", "op:format-builtin", "rounds", "snapshots_compared", "yield_rounds", "op:deep-argmap", "op:validate", "op:validate-rules", "op:variables", "op:argmap", "op:format", "op:lookups"},
 		Race:            true,
 		ShardTimeoutS:   1200,
 	})
@@ -240,6 +240,19 @@ func c11RuleSubset(ix []int) []validator.Rule {
 }
 
 // c11Exec runs one operation against the shared schema and returns a canonical result string.
+var (
+	c11DeepOnce sync.Once
+	c11Deep     *ast.Schema
+)
+
+// c11DeepSchema is a second, process-wide shared schema with a custom-scalar argument.
+func c11DeepSchema() *ast.Schema {
+	c11DeepOnce.Do(func() {
+		c11Deep = gqlparser.MustLoadSchema(&ast.Source{Name: "deep.graphql", Input: "scalar JSON type Query { j(v: JSON): Int }"})
+	})
+	return c11Deep
+}
+
 func c11Exec(schema *ast.Schema, op *c11Op) (res string) {
 	defer func() {
 		if v := recover(); v != nil {
@@ -247,6 +260,35 @@ func c11Exec(schema *ast.Schema, op *c11Op) (res string) {
 		}
 	}()
 	switch op.kind {
+	case "deep-argmap":
+		deep := c11DeepSchema()
+		doc, err := parser.ParseQuery(&ast.Source{Name: "deep.graphql", Input: op.doc})
+		if err != nil {
+			return "PARSE: " + err.Error()
+		}
+		if errs := validator.Validate(deep, doc); len(errs) > 0 {
+			return "INVALID: " + serializeErrs(errs)
+		}
+		f := doc.Operations[0].SelectionSet[0].(*ast.Field)
+		out := ""
+		for k := 0; k < 30; k++ {
+			var v interface{} = f.ArgumentMap(nil)["v"]
+			n := 0
+			for {
+				l, ok := v.([]interface{})
+				if !ok || len(l) != 1 {
+					break
+				}
+				v = l[0]
+				n++
+			}
+			if s := fmt.Sprintf("DEPTH %d LEAF %v", n, v); k == 0 {
+				out = s
+			} else if s != out {
+				return "UNSTABLE: " + out + " then " + s
+			}
+		}
+		return out
 	case "validate", "validate-rules":
 		doc, err := parser.ParseQuery(&ast.Source{Name: "doc.graphql", Input: op.doc})
 		if err != nil {
@@ -569,6 +611,15 @@ func c11Check(x *core.Ctx, c *core.Case) {
 	all := make([][]*c11Op, G)
 	for g := 0; g < G; g++ {
 		all[g] = c11BuildOps(r.Fork(uint64(g)), mg, nops)
+	}
+	if seed%3 == 0 {
+		// every goroutine starts with the argument map of a literal nested 2500-6000 levels deep (a custom-scalar argument of
+		// a small shared schema of its own), resolved thirty times: what is deep for one call is not deeper because other
+		// calls are deep at the same moment
+		for g := 0; g < G; g++ {
+			d := 2500 + r.Intn(3500)
+			all[g] = append([]*c11Op{{kind: "deep-argmap", doc: "{ j(v: " + strings.Repeat("[", d) + "1" + strings.Repeat("]", d) + ") }"}}, all[g]...)
+		}
 	}
 	before := snapshotSchema(schema)
 	// sequential baselines: before the concurrent phase, or - in a COLD round - after it, so that the goroutines meet a
